@@ -84,6 +84,7 @@ type Run struct {
 	Notes    []string
 	Extra    map[string]any
 	Replay   string
+	replayCase string
 }
 
 func NewRun(property string, args []string) *Run {
@@ -114,6 +115,33 @@ func NewRun(property string, args []string) *Run {
 					r.Seed = v
 				}
 				i++
+			}
+		}
+	}
+	if r.Replay != "" {
+		// a replay re-runs the check with the seed and tier recorded in the replay file and then
+		// reports on the recorded case
+		if b, err := os.ReadFile(r.Replay); err == nil {
+			var rp struct {
+				Seed int64  `json:"seed"`
+				Tier string `json:"tier"`
+				Case *struct {
+					ID string `json:"id"`
+				} `json:"case"`
+				Dis *struct {
+					ID string `json:"id"`
+				} `json:"disagreeing_case"`
+			}
+			if json.Unmarshal(b, &rp) == nil {
+				r.Seed = rp.Seed
+				if rp.Tier == "quick" || rp.Tier == "thorough" {
+					r.Tier = rp.Tier
+				}
+				if rp.Case != nil {
+					r.replayCase = rp.Case.ID
+				} else if rp.Dis != nil {
+					r.replayCase = rp.Dis.ID
+				}
 			}
 		}
 	}
@@ -299,6 +327,19 @@ func short(v any) string {
 // replay files, and exits with the check's status.
 func (r *Run) Finish() {
 	defer r.Cleanup()
+	if r.replayCase != "" {
+		found := false
+		for _, c := range r.Results {
+			if c.ID == r.replayCase {
+				found = true
+				b, _ := json.MarshalIndent(c, "", " ")
+				fmt.Printf("REPLAY case %s: oracle_holds=%v agree=%v unmodelled=%q tags=%v\n%s\n", c.ID, c.OracleHolds, c.Agree, c.Unmodelled, c.Tags, tail(string(b), 4000))
+			}
+		}
+		if !found {
+			fmt.Printf("REPLAY case %s: not produced by this run (generation changed); the full check result follows\n", r.replayCase)
+		}
+	}
 	known, err := LoadKnownFindings()
 	if err != nil {
 		r.Fatal("%v", err)
